@@ -47,6 +47,13 @@ CompeteFailed(ev) ==
         \cup UNION {Tag("filter_results", FilterClauses(groups, r.hits, r.v.out, r.v.byid)) : r \in {x \in RF : x.exc = ""}}
         \cup Excs("filter_result_multiple", RM) \cup OrderFree("filter_result_multiple", {[exc |-> r.exc, v |-> BagOf(r.v.out)] : r \in RM})
         \cup UNION {Tag("filter_result_multiple", MultipleClauses(r.hits, r.v.out, r.v.byid)) : r \in {x \in RM : x.exc = ""}}
+        (* the composition the pipeline uses (find_hmmer_hits): what comes out is the best hit of each profile among the hits
+           that survived the competition between equivalent profiles (mid: that survivor list for the same input order) *)
+        \cup Excs("find_hmmer_hits", Results(ev.fh))
+        \cup UNION {IF FilterClauses(groups, r.hits, r.v.mid, r.v.mid) = {}
+                        /\ MultipleClauses(r.v.mid, r.v.out, r.v.out) \ {"sorted_by_position"} # {}
+                    THEN {"find_hmmer_hits/best_of_each_profile_among_the_survivors_of_the_competition"} ELSE {}
+                    : r \in {x \in Results(ev.fh) : x.exc = ""}}
 
 Failed(ev) == CASE ev.op = "refine" -> RefineFailed(ev)
                 [] ev.op = "nooverlap" -> NoOverlapFailed(ev)
